@@ -27,10 +27,18 @@ def seed_from_env() -> int:
 
 
 def load_known(pid: str) -> dict[str, dict]:
-    if not KNOWN.exists():
-        return {}
-    data = json.loads(KNOWN.read_text())
-    return {f["key"]: f for f in data.get("findings", []) if f.get("property") == pid}
+    """Known findings: /verif/known_findings.json plus /verif/known_findings.d/*.json (read-only)."""
+    out: dict[str, dict] = {}
+    files = [KNOWN] if KNOWN.exists() else []
+    d = VERIF / "known_findings.d"
+    if d.is_dir():
+        files += sorted(d.glob("*.json"))
+    for fp in files:
+        data = json.loads(fp.read_text())
+        for f in data.get("findings", []):
+            if f.get("property") == pid:
+                out[f["key"]] = f
+    return out
 
 
 class Check:
